@@ -620,6 +620,9 @@ def _flag_sources(body, l, depth=0):
     if not defs:
         return None
     for d_ in defs:
+        if d_[2] == "assign" and not d_[3]["place"]["p"] and d_[3]["rv"]["k"] in ("binop", "unop") and depth > 0:
+            out.append((d_[0], ("expr", d_)))
+            continue
         if d_[2] != "assign" or d_[3]["place"]["p"] or d_[3]["rv"]["k"] != "use":
             return None
         op = d_[3]["rv"]["op"]
@@ -628,8 +631,9 @@ def _flag_sources(body, l, depth=0):
         elif op["k"] in ("copy", "move") and not op["place"]["p"]:
             sub = _flag_sources(body, op["place"]["l"], depth + 1)
             if sub is None:
-                return None
-            out.extend(sub)
+                out.append((d_[0], ("expr", d_)))      # an opaque bool (a call's result, a comparison): may be either value
+            else:
+                out.extend(sub)
         else:
             return None
     return out
@@ -641,6 +645,7 @@ def guards_of(body, bb, _depth=0):
     A branch on a *flag* — a bool local whose every definition is a constant — taken with the value that exactly one definition assigns
     is also guarded by whatever guards that definition (`let p = matches!(c, …); … if p { X }`: X runs only when the match arm ran)."""
     out = []
+    resolved = set()
     if _depth < 3:
         for s in body.rblocks:
             t = body.blocks[s]["term"]
@@ -654,9 +659,21 @@ def guards_of(body, bb, _depth=0):
                 pol = pols.get(node)
                 if pol is None or not body.dominates(node, bb):
                     continue
-                setters = [d_ for d_ in srcs if d_[1] == pol]
-                if len(setters) == 1 and setters[0][0] != s:
+                setters = [d_ for d_ in srcs if d_[1] == pol or isinstance(d_[1], tuple)]
+                if len(setters) == 1 and setters[0][0] != s and any(not isinstance(d_[1], tuple) for d_ in srcs):
                     for g in guards_of(body, setters[0][0], _depth + 1):
+                        if g not in out:
+                            out.append(g)
+                    resolved.add(node)
+                    if isinstance(setters[0][1], tuple):
+                        # `let f = a && b; if f { X }`: X runs only where the flag got its value from the expression, and the expression was `pol`
+                        dd = setters[0][1][1]
+                        e_ = strip_refs(body.expr_rvalue(dd[3]["rv"]))
+                        p_ = pol
+                        while e_.k == "un" and e_.a[0] == "Not":
+                            e_ = strip_refs(e_.a[1])
+                            p_ = not p_
+                        g = (e_, p_, setters[0][0])
                         if g not in out:
                             out.append(g)
     for s in body.rblocks:
@@ -664,7 +681,7 @@ def guards_of(body, bb, _depth=0):
         if t["k"] != "switch":
             continue
         for (node, vals, tgt) in body.switch_edges(s):
-            if body.dominates(node, bb):
+            if body.dominates(node, bb) and node not in resolved:
                 d = strip_refs(body.expr_operand(t["discr"]))
                 if t["discr_ty"] == "bool":
                     pol = bool_switch_polarity(body, s).get(node)
